@@ -73,6 +73,8 @@ pub struct StoreState {
     pub faults_fired: u64,
     /// latency: 0 = none; otherwise each call sleeps mix(seed, call) % (max+1) virtual ms
     pub latency_max_ms: u64,
+    /// same for the scans a start-up performs (get_keyspace_list, iter_metadata): 0 = none
+    pub scan_latency_max_ms: u64,
     pub latency_seed: u64,
     /// explicit per-call latencies (mutating call number -> ms), override the above
     pub latency_at: BTreeMap<u64, u64>,
@@ -141,6 +143,21 @@ impl SimStorage {
                 *ms
             } else if st.latency_max_ms > 0 {
                 mix(st.latency_seed, call_no) % (st.latency_max_ms + 1)
+            } else {
+                0
+            }
+        };
+        if ms > 0 {
+            tokio::time::sleep(Duration::from_millis(ms)).await;
+        }
+    }
+
+    /// a scan returns the rows as they are when it completes, after its (virtual) duration
+    async fn scan_latency(&self) {
+        let ms = {
+            let st = self.st.lock();
+            if st.scan_latency_max_ms > 0 {
+                mix(st.latency_seed ^ 0x5CA9, st.reads) % (st.scan_latency_max_ms + 1)
             } else {
                 0
             }
@@ -238,12 +255,14 @@ impl Storage for SimStorage {
     type MetadataIter = std::vec::IntoIter<(Key, HLCTimestamp, bool)>;
 
     async fn get_keyspace_list(&self) -> Result<Vec<String>, Self::Error> {
+        self.scan_latency().await;
         let mut st = self.st.lock();
         st.reads += 1;
         Ok(st.keyspaces.clone())
     }
 
     async fn iter_metadata(&self, keyspace: &str) -> Result<Self::MetadataIter, Self::Error> {
+        self.scan_latency().await;
         let mut st = self.st.lock();
         st.reads += 1;
         let v: Vec<(Key, HLCTimestamp, bool)> = st
